@@ -4,7 +4,8 @@ import Orb.WKTFloat
 
 /-!
   Driver for C04 (WKT text round trip, typed entry points, re-spellings; `handleSeq`: a text returned
-  by an encoder call stays what it was across later calls) and the WKT share of C05
+  by an encoder call stays what it was across later calls; `handlePar`: concurrent parse phase;
+  `handleBseq` / `handleBrt`: implementation-only clauses at sizes beyond the model) and the WKT share of C05
   (`handleHostile`: no panic, no timeout, allocation within `allocC·len + allocK`).
 
   `fmt %g` and `strconv.ParseFloat` are parameters of the model.  Every case line carries Go's own
@@ -452,6 +453,207 @@ def handleSeq (inp out : Toks) : String :=
         let kinds := (if items.any (·.1 == 0) then " bytes" else "") ++ (if items.any (·.1 != 0) then " string" else "")
         s!"ok seq {mode}{kinds}" ++ (if n ≥ 4 then " n>=4" else "")
 
+/-! ### white-box round: ops `par`, `bseq`, `brt` (harness/c04_wb.go)
+
+  `par` — a concurrent PARSE phase: the solo outcomes of every text are judged as in `rt`; every
+  outcome seen while G goroutines parse all texts at once (optionally next to a goroutine that
+  encodes), and alone afterwards, must be the solo outcome (`propfail parse-concurrent`,
+  `propfail marshal-concurrent`).  The Lean model is a pure function: this clause is executable on
+  the implementation only.
+
+  `bseq` / `brt` — values given by a descriptor, far beyond what the (quadratic) model parser can
+  follow: judged on the implementation's answers alone.  The harness compares decoded values with the
+  described value bit for bit (ring / bound as the one-ring polygon) and reports `same`, the error
+  class, `other <kind>` or `panic`; the clauses are those of `seq` and `rt`. -/
+
+/-- mirror of `wktWBSpell` -/
+def spell (sp : Nat) (s : Str) : Str :=
+  match sp with
+  | 1 => s.map foldByte
+  | 2 => [32, 9] ++ s.map foldByte ++ [10]
+  | 3 => 10 :: (s ++ [32])
+  | 4 => s.dropLast
+  | 5 => 88 :: s.drop 1
+  | 6 => s ++ [120]
+  | _ => s
+
+def fnName (i : Nat) : String :=
+  match i with
+  | 0 => "Unmarshal" | 1 => "UnmarshalPoint" | 2 => "UnmarshalMultiPoint" | 3 => "UnmarshalLineString"
+  | 4 => "UnmarshalMultiLineString" | 5 => "UnmarshalPolygon" | 6 => "UnmarshalMultiPolygon"
+  | 7 => "UnmarshalCollection" | 8 => "MarshalString" | _ => "Marshal"
+
+/-- the solo outcomes of one text of `par`, judged as `handleRt` judges them; rank 0/1 = propfail,
+    2 = diff, 3 = bad, 9 = fine -/
+def parItemVerdict (f : FT) (t : PT) (k sp : Nat) (v : GVal UInt64) (hex : String) (got : List String) : Nat × String :=
+  let fmt := mkFmt f
+  match marshal fmt v with
+  | .ok plain =>
+    let mtext := spell sp plain
+    let mo? := modelOutcomes t mtext
+    let agree : Bool := match mo? with
+      | some mo => hexOfStr mtext == hex && mo == got
+      | none => false
+    let diffMsg : String := match mo? with
+      | some mo => s!"diff par text {k} " ++ hexOfStr mtext ++ " ; " ++ " ; ".intercalate mo
+      | none => "diff table-miss"
+    if got.any (· == "panic") then (0, "propfail panic") else
+    if sp ≥ 4 then (if agree then (9, "broken") else (2, diffMsg)) else
+    match canonV v with
+    | none => if agree then (9, "nil") else (2, diffMsg)
+    | some g =>
+      if !isFinite g then (if agree then (8, "nonfinite") else (2, diffMsg)) else
+      match judge8 fmt g got with
+      | some clause =>
+        if clause == knownLabel then (if agree then (9, "both-fail") else (2, diffMsg))
+        else (1, "propfail " ++ clause ++ s!" (par text {k})")
+      | none => if agree then (9, "ok") else (2, diffMsg)
+  | _ => (3, "bad marshal-of-impossible-value")
+
+/-- `par G rounds enc n (sp gval)*n | F… T… => (texthex ; o0 ; … ; o7 ;)*n conc <calls> <mism> [; m <c|a> idx fn outcome…]*` -/
+def handlePar (inp out : Toks) : String :=
+  match (do
+    let (g, i) ← nat inp
+    let (rounds, i) ← nat i
+    let (enc, i) ← nat i
+    let (items, i) ← counted seqItem i
+    let ((f, t), _) ← parseTables i
+    pure (g, rounds, enc, items, f, t)) with
+  | none => "bad input"
+  | some (gN, rounds, enc, items, f, t) =>
+    let n := items.length
+    if out == ["panic"] then "propfail marshal-panic par" else
+    let secs := splitSemi out
+    if secs.length < 9 * n + 1 then "bad output" else
+    match secs[9 * n]? with
+    | some ["conc", callsT, mismT] =>
+      (match callsT.toNat?, mismT.toNat? with
+       | some calls, some mism =>
+         let kindOf (i : Nat) : String :=
+           match items[i]? with
+           | some (_, v) => (match canonV v with | some g => kindName g | none => "nil")
+           | none => "?"
+         if mism > 0 then
+           match secs[9 * n + 1]? with
+           | some ("m" :: phase :: iT :: fT :: o) =>
+             let fn := fT.toNat?.getD 99
+             let i := iT.toNat?.getD 0
+             let ph := if phase == "c" then "during" else "after"
+             let ot := " ".intercalate o
+             if fn ≥ 8 then s!"propfail marshal-concurrent {fnName fn} {ph} value {i} {kindOf i} G={gN} n={n} mismatches={mism} of {calls}"
+             else s!"propfail parse-concurrent {fnName fn} {ph} text {i} {kindOf i} got {tagOfOutcome ot} G={gN} n={n} mismatches={mism} of {calls}"
+           | _ => "bad output"
+         else
+         if calls != gN * rounds * n * 8 + (if enc == 1 then rounds * n * 2 else 0) then "bad call-count" else
+         let verdicts := (List.range n).map fun k =>
+           match items[k]?, secs[9*k]? with
+           | some (sp, v), some [hex] =>
+             let got := joinToks ((secs.drop (9*k+1)).take 8)
+             parItemVerdict f t k sp v hex got
+           | _, _ => (3, "bad output")
+         match verdicts.find? (·.1 == 0), verdicts.find? (·.1 == 1), verdicts.find? (·.1 == 2), verdicts.find? (·.1 == 3) with
+         | some (_, m), _, _, _ => m
+         | _, some (_, m), _, _ => m
+         | _, _, some (_, m), _ => m
+         | _, _, _, some (_, m) => m
+         | _, _, _, _ =>
+           match floatAssumption f (mkParse t none) with
+           | some d => d
+           | none =>
+             s!"ok par g{gN}" ++ (if enc == 1 then " enc" else "") ++ (if items.any (fun it => it.1 != 0 && it.1 < 4) then " respelt" else "")
+               ++ (if items.any (·.1 ≥ 4) then " broken" else "") ++ (if n ≥ 4 then " n>=4" else "")
+       | _, _ => "bad output")
+    | _ => "bad output"
+
+/-- position of the typed function that owns the text of a described kind (order of `typedAll`) -/
+def bigKindIdx (kind : String) : Option Nat :=
+  match kind with
+  | "P" => some 0 | "MP" => some 1 | "LS" => some 2 | "MLS" => some 3 | "PG" => some 4 | "R" => some 4
+  | "MPG" => some 5
+  | "CP" | "CL" | "CM" | "CC" | "CCC" | "CMP" | "CLS" | "CMLS" | "CPG" | "CMPG" | "NEST" => some 6
+  | _ => none
+
+def sizeClass (n : Nat) : String :=
+  if n ≤ 1 then "2^0" else s!"2^{Nat.log2 (n - 1) + 1}"
+
+def sizedItem : P (Nat × String × Nat × Nat) := fun ts => do
+  let (e, ts) ← nat ts
+  let (k, ts) ← tok ts
+  let (l, ts) ← nat ts
+  let (s, ts) ← nat ts
+  pure ((e, k, l, s), ts)
+
+/-- `bseq <mode> n (entry kind L salt)*n => (len b ; kept =|chg off len ; rt verdict ; fresh =|chg off len)*n` -/
+def handleBseq (inp out : Toks) : String :=
+  match (do
+    let (mode, i) ← tok inp
+    let (items, _) ← counted sizedItem i
+    pure (mode, items)) with
+  | none => "bad input"
+  | some (mode, items) =>
+    let n := items.length
+    if out == ["panic"] then "propfail marshal-panic bseq" else
+    let secs := splitSemi out
+    if secs.length != 4 * n then "bad output" else
+    let rows := (List.range n).filterMap fun k =>
+      match items[k]?, secs[4*k]?, secs[4*k+1]?, secs[4*k+2]?, secs[4*k+3]? with
+      | some (c, kind, l, _), some ["len", lt], some ("kept" :: kp), some ("rt" :: rt), some ("fresh" :: fr) =>
+        (match lt.toNat?, bigKindIdx kind with
+         | some len, some _ => some (k, c, kind, l, len, kp, " ".intercalate rt, fr)
+         | _, _ => none)
+      | _, _, _, _, _ => none
+    if rows.length != n then "bad output" else
+    match rows.find? (fun (_, _, _, _, _, kp, _, _) => kp != ["="]) with
+    | some (k, c, kind, _, len, kp, _, _) =>
+      s!"propfail marshal-result-changed {entryName c} item {k} of {n} mode {mode} {kind} len={len} {" ".intercalate kp}"
+    | none =>
+    match rows.find? (fun (_, _, _, _, _, _, _, fr) => fr != ["="]) with
+    | some (k, c, kind, _, len, _, _, fr) =>
+      s!"propfail marshal-after-overwrite {entryName c} item {k} of {n} mode {mode} {kind} len={len} {" ".intercalate fr}"
+    | none =>
+    match rows.find? (fun (_, _, _, _, _, _, rt, _) => rt != "same") with
+    | some (k, _, kind, _, len, _, rt, _) =>
+      if rt == "panic" then "propfail panic" else s!"propfail roundtrip big-text {kind} item {k} len={len} got {rt}"
+    | none =>
+      let maxLen := rows.foldl (fun m (_, _, _, _, len, _, _, _) => max m len) 0
+      let exact := rows.all fun (_, _, _, l, len, _, _, _) => l == len
+      s!"ok bseq {mode} <={sizeClass maxLen}" ++ (if exact then "" else " near")
+
+/-- `brt sp kind a per pts salt => len b ; enc same|differ ; v0 ; … ; v7` -/
+def handleBrt (inp out : Toks) : String :=
+  match (do
+    let (sp, i) ← nat inp
+    let (kind, i) ← tok i
+    let (a, i) ← nat i
+    let (per, i) ← nat i
+    let (pts, i) ← nat i
+    let (_, _) ← nat i
+    let idx ← bigKindIdx kind
+    pure (sp, kind, a, per, pts, idx)) with
+  | none => "bad input"
+  | some (sp, kind, a, per, pts, idx) =>
+    if out == ["panic"] then "propfail marshal-panic brt" else
+    match splitSemi out with
+    | ["len", lt] :: ["enc", e] :: outs =>
+      if outs.length != 8 then "bad output" else
+      match lt.toNat? with
+      | none => "bad output"
+      | some len =>
+      let got := joinToks outs
+      let want := "same" :: (List.range 7).map fun i => if i == idx then "same" else "err incorrect"
+      let what := s!"{kind} a={a} per={per} pts={pts} len={len}"
+      if got.any (· == "panic") then s!"propfail panic brt {what}"
+      else if e != "same" then s!"propfail marshal-entry-points-differ {what}"
+      else if got == want then
+        let members := max a (max per pts)
+        let cls := if kind == "NEST" then (if a > 65535 then "d>=2^16" else if a > 4097 then "d>4097" else "d<=4097")
+          else if members > 131071 then ">=2^17" else if members > 65535 then ">=2^16" else "<2^16"
+        s!"ok brt {kind} {cls}" ++ (if sp != 0 then " respelt" else "")
+      else if got.head? != want.head? then s!"propfail roundtrip big {what} got {got.headD ""}"
+      else if got[idx + 1]? != want[idx + 1]? then s!"propfail typed-accept big {what} got {(got[idx + 1]?).getD ""}"
+      else s!"propfail typed-reject big {what}"
+    | _ => "bad output"
+
 /-! ### C05: hostile input
 
   `allocC·len + allocK` bounds `runtime.MemStats.TotalAlloc` around one `wkt.Unmarshal` call.
@@ -507,6 +709,9 @@ def handle (ts : Toks) : String :=
     | "parse" => handleParse inp out
     | "hostile" => handleHostile inp out
     | "seq" => handleSeq inp out
+    | "par" => handlePar inp out
+    | "bseq" => handleBseq inp out
+    | "brt" => handleBrt inp out
     | _ => "bad op " ++ op
   | [] => "bad empty"
 
